@@ -1,4 +1,5 @@
 (* C22 - concrete witnesses (parser models dumped by tools/pegdump.py from the live textX). *)
+From TxV Require Proofs.PegProofs.
 From TxV Require Import Core.Base Model.PegSyntax Model.Peg Model.PegWsDefs Proofs.PegWs Proofs.PegWsSim.
 
 Definition c_default : config := mkConfig true [9;10;13;32]%N.
@@ -69,3 +70,62 @@ Proof.
   eexists. eexists. split; [vm_compute; reflexivity|]. split; [vm_compute; reflexivity|].
   vm_compute. discriminate.
 Qed.
+
+(* Model: 'a' 'b'+; Comment: /\/\/.*?$/;     "a b" -> "a // i\n b"  (a="a", w1=" ", c="// i", w2="\n", b=" b") *)
+Definition g_cmt1 : grammar := (mkGrammar [mkNode KSeq [1;5] None false [77;111;100;101;108]%N true false None None;
+  mkNode KSeq [2;3] None false [77;111;100;101;108]%N true false None None;
+  mkNode (KStr [97]%N None) [] None false []%N false false None None;
+  mkNode KPlus [4] None false []%N false false None None;
+  mkNode (KStr [98]%N None) [] None false []%N false false None None;
+  mkNode KEOF [] None false [69;79;70]%N false false None None;
+  mkNode (KRegex 0) [] None false [67;111;109;109;101;110;116]%N true false None None] 0 (Some 6)).
+Definition cmt1_orc := orc_of (@nil ((nat * nat) * nat)).
+Definition cmt1_orc' := orc_of [((0,2),4)].
+
+Lemma cmt1_nonvacuous :
+  cmt_wf g_cmt1 c_default = true /\
+  cmt_ins_okb g_cmt1 c_default cmt1_orc' [97]%N [32]%N [47;47;32;105]%N [10]%N = true /\
+  shift_okb g_cmt1 ([97] ++ [32;98])%N cmt1_orc ([97] ++ ([32] ++ [47;47;32;105] ++ [10]) ++ [32;98])%N cmt1_orc' 1 6 = true /\
+  accepts (run g_cmt1 c_default cmt1_orc false 50 ([97] ++ [32;98])%N) = true /\
+  accepts (run g_cmt1 c_default cmt1_orc' false 50 ([97] ++ ([32] ++ [47;47;32;105] ++ [10]) ++ [32;98])%N) = true.
+Proof. vm_compute. repeat split. Qed.
+
+(* Model: 'a' b=B c=ID; B[ws=' ']: 'x' 'y'+; Comment: /\/\*(.|\n)*?\*\//;
+   "a x y\n foo" accepted, "a x y/* i */\n foo" rejected: the end of the comment is recorded in
+   comment_positions under ws=' ' (newline not skipped) and reused under the default set.  The Comment
+   rule is a single regex and the inserted text is an exact Comment match: only the mode-constancy
+   condition of cmt_wf fails. *)
+Definition g_cmt2 : grammar := (mkGrammar [mkNode KSeq [1;10] None false [77;111;100;101;108]%N true false None None;
+  mkNode KSeq [2;3;8] None false [77;111;100;101;108]%N true false None None;
+  mkNode (KStr [97]%N None) [] None false []%N false false None None;
+  mkNode KSeq [4] None false [95;95;97;115;103;110;95;112;108;97;105;110]%N true false None None;
+  mkNode KSeq [5;6] None false [66]%N true false (Some [32]%N) None;
+  mkNode (KStr [120]%N None) [] None false []%N false false None None;
+  mkNode KPlus [7] None false []%N false false None None;
+  mkNode (KStr [121]%N None) [] None false []%N false false None None;
+  mkNode KSeq [9] None false [95;95;97;115;103;110;95;112;108;97;105;110]%N true false None None;
+  mkNode (KRegex 0) [] None false [73;68]%N true false None None;
+  mkNode KEOF [] None false [69;79;70]%N false false None None;
+  mkNode (KRegex 1) [] None false [67;111;109;109;101;110;116]%N true false None None] 0 (Some 11)).
+Definition cmt2_orc := orc_of [((0,0),1);((0,2),1);((0,4),1);((0,7),3);((0,8),2);((0,9),1)].
+Definition cmt2_orc' := orc_of [((0,0),1);((0,2),1);((0,4),1);((0,8),1);((0,14),3);((0,15),2);((0,16),1);((1,5),7)].
+
+Lemma cmt2_refuted :
+  cmt_wf g_cmt2 c_default = false /\
+  cmt_ins_okb g_cmt2 c_default cmt2_orc' [97;32;120;32;121]%N [] [47;42;32;105;32;42;47]%N [] = true /\
+  accepts (run g_cmt2 c_default cmt2_orc false 60 ([97;32;120;32;121] ++ [10;32;102;111;111])%N) = true /\
+  run g_cmt2 c_default cmt2_orc' false 60 ([97;32;120;32;121] ++ ([] ++ [47;42;32;105;32;42;47] ++ []) ++ [10;32;102;111;111])%N = SyntaxErr 12.
+Proof. vm_compute. repeat split. Qed.
+
+Lemma plain_memo_nonvacuous :
+  PegProofs.ctx_constant g_plain = true /\ c_skipws c_default = true /\ subset_ws [32;9]%N (c_ws c_default) = true /\
+  shift_okb g_plain ([97;32] ++ [98])%N no_orc ([97;32] ++ [32;9] ++ [98])%N no_orc 2 2 = true /\
+  accepts (run g_plain c_default no_orc true 50 ([97;32] ++ [32;9] ++ [98])%N) = true.
+Proof. vm_compute. repeat split. Qed.
+
+From TxV Require Import Proofs.PegGap.
+Lemma plain_tiled_nonvacuous :
+  g_comments g_plain = None /\ top_eof g_plain = true /\
+  accepts (run g_plain c_default no_orc false 50 [97;32;32;98;10;98]%N) = true /\
+  all_ws g_plain c_default = c_ws c_default.
+Proof. vm_compute. repeat split. Qed.
